@@ -72,6 +72,12 @@ func genErrSpec(r *Rand) *ErrSpec {
 // simple, always-safe error (no decorations that the pinned tree mis-encodes)
 func plainErr(r *Rand) *ErrSpec {
 	e := &ErrSpec{Msg: "failed " + r.Ident(4), Order: "cs"}
+	if r.Chance(1, 12) {
+		// error values of unusual make: slice-typed, or the session's one mutable
+		// error object filled in anew
+		e.Kind = r.Pick("slice", "reused", "reused")
+		return e
+	}
 	if r.Bool() {
 		e.Code = sqlstates[r.Intn(len(sqlstates))]
 	}
